@@ -20,6 +20,10 @@ def write_cases(ctx, cases, name):
         for c in cases:
             if isinstance(c.get('pol'), list):      # the empty function <<>> leaves TLC as []
                 c = dict(c, pol={})
+            if isinstance(c.get('pol'), dict) and '#select' in c['pol']:     # Select's policy is its allow set
+                c = dict(c, pol={})
+            if isinstance(c.get('faults'), list):
+                c = dict(c, faults={})
             if c.get('tree'):
                 c = dict(c, tree=[dict(n, pol={}) if isinstance(n.get('pol'), list) else n for n in c['tree']])
             f.write(json.dumps(c) + '\n')
@@ -41,8 +45,10 @@ def count_ops(ctx, trace):
     """events per wrapper kind / method, rejected calls, hostile names: for the evidence file"""
     per = ctx.cov['per_op']
     kind = '-'
+    faults = set()
+    scripted = False
     with open(trace) as f:
-        f.readline()
+        repos = set(json.loads(f.readline())['repos'])
         for l in f:
             if '"op":"snap"' in l:
                 per['snap'] = per.get('snap', 0) + 1
@@ -50,6 +56,8 @@ def count_ops(ctx, trace):
             e = json.loads(l)
             if e['op'] == 'reset':
                 kind = e['kind']
+                faults = {x[0] for x in e.get('faults', [])}
+                scripted = e.get('scripted', False)
                 per['scenarios:' + kind] = per.get('scenarios:' + kind, 0) + 1
                 continue
             if e['op'] == 'cscope':
@@ -61,6 +69,12 @@ def count_ops(ctx, trace):
                 continue
             k = '%s:%s' % (kind, e['op'])
             per[k] = per.get(k, 0) + 1
+            if scripted and e['op'] == 'ListRepos':
+                per[kind + ':scripted-listing'] = per.get(kind + ':scripted-listing', 0) + 1
+            if kind != 'sub' and e['op'] != 'ListRepos' and any(n not in repos for n in ([e.get('r', '')] + ([e['from']] if e['op'] == 'MountBlob' else []))):
+                per[kind + ':ill-formed-name'] = per.get(kind + ':ill-formed-name', 0) + 1
+            if faults and e['op'] in faults and e.get('backend'):
+                per[kind + ':backend-refused'] = per.get(kind + ':backend-refused', 0) + 1
             if e['op'] == 'ListRepos' and e.get('errwith'):
                 per[kind + ':listing-failed-with-name'] = per.get(kind + ':listing-failed-with-name', 0) + 1
             if kind != 'sub' and e['op'] != 'skip' and not e['backend'] and e['op'] not in ('UpSize', 'Close'):
